@@ -118,6 +118,21 @@ CHECKS['C01'] = dict(
     design='§5 C01',
     note=COMMON_NOTE + 'C01_step for every mutation is NOT proved: the lowering of mutations to statements and SQLite execution are observed, not modelled; index/CHECK differences on rebuilt tables are masked by findings F1/F18/F22 (see DESIGN.md), column/foreign-key/table-set/frame differences are not.')
 
+CHECKS['C06'] = dict(
+    technique='Lean 4 proof (mutual structural induction over the value grammar) + differential correspondence of the storage trip',
+    text=('Lean model of serialize_to_signature, the json.dumps / json.loads(object_pairs_hook=OrderedDict) storage trip '
+          'and deserialize_from_signature with the dispatch variant as a parameter. Proved for every well-formed value '
+          '(nested/negated/OR/XOR Q, F, Value, combined expressions, enums, tuples, lists, dicts, any depth): with the '
+          'repaired dispatch the reloaded value is the normal form of the original (C06_roundtrip); plain data '
+          'round-trips under either dispatch (C06_partial_plain); the reloaded value re-serialises to the same stored '
+          'text under either dispatch (C06_reserialize, C06_reserialize_strict); kernel-checked counterexamples for the '
+          'strict dispatch (F7, repaired by a fix: commit) and for tuples (F8). The dispatch variant is read from the '
+          'source (AST) and probed on every run; stored text, reloaded value and re-serialised text are compared with '
+          'the real code on generated values; signatures with constraints/indexes go through Version.save()/reload on '
+          'SQLite; v2 -> v1 -> v2 for the v1-expressible subset.'),
+    design='§5 C06',
+    note=COMMON_NOTE + 'Model covers attribute values; the enclosing signature structure (apps/models/fields dictionaries) is exercised by the signature-level oracle, not modelled. json.dumps/loads are trusted.')
+
 NOT_YET = {}
 
 
